@@ -18,6 +18,10 @@ package main
 //	         the tables are saved one after the other by ONE offsetDB (its 64 KiB buffer and snapshot slice are reused)
 //	which=6  load after a crash        case = (target old new cp override names)  obs = (oldb #newb dir1 dir2 load)   see crashload.go
 //	which=7  go/ast of the loaders     case = (#file #recv #load #save)  obs = ((#dest ...) ((#fn #path) ...))   see loadast.go
+//	which=8  which 4 under persistence_mode sync (the save inside the real commit)                          see provider.go
+//	which=9  real async saver + real stop()  case = (table (script ...) nreads)  obs = (loadres ...)          see provider.go
+//	which=10 provider history          case = (sync op0 files ops)      obs = ((res loadres) ...)            see provider.go
+//	which=11 error paths / foreign file case = (kind ...)                                                     see errors.go
 //
 // which=2 runs a helper process (this binary, "c07helper") that performs ONE real save under
 // `strace -f -e inject=...`: the k-th call of one kind fails with EIO/ENOSPC or the process is killed on
@@ -543,7 +547,7 @@ func execConcurrent(cs hx.Sx) hx.Sx {
 }
 
 // ---- which=4: overlapping saves of one offsetDB, a concurrent reader -----------------------------------
-func execOverlap(cs hx.Sx) hx.Sx {
+func execOverlap(cs hx.Sx, syncMode bool) hx.Sx {
 	it := hx.Items(cs)
 	table := decodeTable(it[0])
 	scripts := hx.Items(it[1])
@@ -556,6 +560,9 @@ func execOverlap(cs hx.Sx) hx.Sx {
 	cur := filepath.Join(d, "offsets.yaml")
 	p := filein.VerifC07NewProvider(cur, cur+".atomic", table)
 	p.Save()
+	if syncMode { // which 8: persistence_mode = sync, the save below is the one inside the real commit
+		setSyncMode(p)
+	}
 	started := make([]atomic.Int64, len(table)) // commits of job j begun (incremented BEFORE the commit)
 	sample := func() hx.Sx {
 		out := make([]hx.Sx, len(table))
@@ -620,7 +627,9 @@ func execOverlap(cs hx.Sx) hx.Sx {
 						progressed = true
 						started[i].Add(1)
 						p.Commit(pipeline.VerifC07Event(pipeline.SourceID(table[i].SourceID), uint64(pos[i]), hx.Int(kv[1]), hx.Str(kv[0])))
-						p.Save()
+						if !syncMode {
+							p.Save()
+						}
 					}
 				}
 			})
@@ -707,7 +716,15 @@ func exec07(which int, cs hx.Sx) hx.Sx {
 	case 3:
 		return execConcurrent(cs)
 	case 4:
-		return execOverlap(cs)
+		return execOverlap(cs, false)
+	case 8:
+		return execOverlap(cs, true)
+	case 9:
+		return execCyclic(cs)
+	case 10:
+		return execHistory(cs)
+	case 11:
+		return execErrors(cs)
 	}
 	return hx.L()
 }
@@ -827,6 +844,11 @@ func smallNames() []string {
 
 func gen07(c *hmain.Ctx) {
 	r := c.R
+	if os.Getenv("C07_ONLY_COV") != "" { // development aid: the provider / error-path streams alone
+		genProvider(c)
+		genErrors(c)
+		return
+	}
 	// ---- exhaustive small scope: every one-job table with 1 or 2 streams named over {a, ':', ' ', '-'} up to
 	//      length 2 (incl. the empty name), offsets {0, 7, 2^63-1}; every two-job table of single streams
 	names := smallNames()
@@ -1073,6 +1095,8 @@ func gen07(c *hmain.Ctx) {
 	}
 	genCrashLoad(c)
 	genLoadAST(c)
+	genProvider(c)
+	genErrors(c)
 	if os.Getenv("C07_SKIP_THRESHOLDS") == "" { // development aid: time the streams above alone
 		genThresholds(c)
 	}
